@@ -279,7 +279,7 @@ class Model(object):
             return Samples(out, geometry=func_range_geometry)
         
         # store if input x is CUQIarray
-        is_CUQIarray = type(x) is CUQIarray
+        is_CUQIarray = isinstance(x, CUQIarray)
 
         x = self._2fun(x, func_domain_geometry, is_par=is_par)
         out = func(x, **kwargs)
@@ -413,7 +413,7 @@ class Model(object):
         wrt = self._2fun(wrt, self.domain_geometry, is_par=is_wrt_par)
 
         # Store if the input direction is CUQIarray
-        is_direction_CUQIarray = type(direction) is CUQIarray
+        is_direction_CUQIarray = isinstance(direction, CUQIarray)
 
         direction = self._2fun(direction,
                                self.range_geometry,
